@@ -439,13 +439,15 @@ def make_scope_forward_decor_curr(
             cls_root = cls_stack[0]
             cls_curr = cls_stack[-1]
 
-            # If this local scope is the empty frozen dictionary, mutate this
-            # local scope into a new mutable dictionary to enable new locals to
-            # be added to this scope below.
-            if func_locals is FROZENDICT_EMPTY:
-                func_locals = {}
-            # Else, this local scope is *NOT* the empty frozen dictionary.
-            # Presumably, this implies this scope to be a mutable dictionary.
+            # Shallow copy of this local scope, enabling new locals to be added
+            # to this scope below *WITHOUT* mutating the original scope. Under
+            # Python <= 3.12, the original scope is the "f_locals" dictionary of
+            # the stack frame of the closure declaring this type, which CPython
+            # caches on that frame. Mutating that dictionary in-place would both
+            # pollute the locals() of that closure *AND* leak these class
+            # variables into the forward scopes of all callables and types
+            # subsequently decorated in that closure.
+            func_locals = dict(func_locals)
 
             # Add new locals exposing these types to type hints, overwriting any
             # locals of the same names in the higher-level local scope for any
